@@ -2,6 +2,7 @@ package main
 
 import (
 	"fmt"
+	"math"
 	"math/big"
 
 	"github.com/tuneinsight/lattigo/v6/core/rlwe"
@@ -56,6 +57,26 @@ func xeAlphabet() []ring.DistributionParameters {
 		ring.DiscreteGaussian{Sigma: 1, Bound: 6},
 		ring.Ternary{P: 0.5},
 	}
+}
+
+// xeFor: the error alphabet of a chain (with its P). Chains whose primes of Q and P are ALL at least 45 bits long also get
+// Gaussians with a huge support (σ = 2^31, 2^33, 2^40, bound 6σ): accepted by NewParameters, and every
+// sampled coefficient fits below every q_i (the sampler writes it per modulus) and below q_0/2 (the
+// small-norm lift to P centres through q_0) — so the noise bounds derived from the declared support
+// apply unchanged; they are large (≈ 2^43 .. 2^52) but far below Q (≥ 2^55 at level 0). Coefficients
+// beyond 2^31 / 2^32 are the point: intermediate 32-bit representations show up nowhere else.
+func xeFor(ch rk.Chain) []ring.DistributionParameters {
+	a := xeAlphabet()
+	for _, b := range append(append([]int{}, ch.QBits...), ch.PBits...) { // (P as well: the lift writes the value mod every p_j)
+		if b < 45 {
+			return a
+		}
+	}
+	for _, e := range []float64{31, 33, 40} {
+		s := math.Exp2(e)
+		a = append(a, ring.DiscreteGaussian{Sigma: s, Bound: 6 * s})
+	}
+	return a
 }
 
 func isTernary(d ring.DistributionParameters) bool {
